@@ -440,3 +440,10 @@ func (c *Chain) MineQuiet(n int) {
 		f(h)
 	}
 }
+
+// TxOrder returns the txids in submission order.
+func (c *Chain) TxOrder() []string {
+	c.w.mu.Lock()
+	defer c.w.mu.Unlock()
+	return append([]string{}, c.Order...)
+}
